@@ -216,7 +216,8 @@ def run(ctx):
         if r.startswith("ok\t") and not unhx(r.split("\t")[1]).endswith(b"\r\n\r\n"):
             unexpl.append(({"name": "message", "value": line}, "the header section of a message without content is not followed by an empty line: ...%r" % unhx(r.split("\t")[1])[-40:]))
     # one field per name, whatever the letter case of later set calls (header map operations)
-    hn = ["Subject", "subject", "SUBJECT", "sUBJECT", "X-Priority", "x-priority", "X-priority", "Date", "date", "Message-ID", "Message-Id"]
+    hn = ["Subject", "subject", "SUBJECT", "sUBJECT", "X-Priority", "x-priority", "X-priority", "Date", "date", "Message-ID", "Message-Id",
+          "X-Tag^", "X-Tag~", "x-tag~", "X[a]", "X{a}", "X@b", "X`b", "X\\c", "X|c", "X-a_b", "X-a-b"]
     ol = []
     for _ in range(300 if ctx.tier == "quick" else 5000):
         ops = []
